@@ -120,6 +120,9 @@ func vhInvS(s *sender) bool {
 		if n == 0 {
 			l = 1
 			ok = vand(ok, seg.Next() == nil) // FIN is last
+			// an empty segment is a FIN (queued by Shutdown), never a data segment emptied by trimming
+			ok = vand(ok, s.ep.sndClosed)
+			ok = vand(ok, vor(seg.flags == 0, seg.flags&flagFin != 0))
 		}
 		pos = pos.Add(l)
 		if assigned {
